@@ -30,6 +30,7 @@ func propC18(c *Ctx, r *Report) {
 	ruleOneSnapshotPerResponse(c, r, cat, "C18-R7/one-snapshot-per-listing")
 	ruleDSNLocking(c, r, "C18-R8/handles-lock")
 	ruleGlobalAddressEscapes(c, r, "C18-R9/globals-not-exposed")
+	ruleMarshalNoRecursion(c, r, "C18-R10/marshal-no-recursion")
 	{
 		scope := map[*ssa.Function]bool{}
 		for f := range c.RSync {
@@ -220,6 +221,7 @@ func propC09(c *Ctx, r *Report) {
 	ruleAveragesEraFree(c, r, "C09/averages-era-free")
 	ruleHoldingWindow(c, r, "C09/averages-height")
 	ruleLoopCarriedDecisions(c, r, computeEffects(c), "C09/loop-carried-decisions")
+	ruleAveragesCacheReaders(c, sa, r, "C09/cache-readers")
 	r.rule("C09/config-stable", 1, "no activation/config global is written while the daemon runs")
 	n := 0
 	for _, a := range sa.Acc {
